@@ -266,10 +266,9 @@ func (w *World) buildRows() map[string]*Row {
 		}))})
 	add(&Row{URL: "/osmosis.concentratedliquidity.v1beta1.MsgTransferPositions", Kind: "object", Field: "position_ids[]", Who: "owner of every listed position, or the governance module account (documented in the handler)",
 		Gen: join(posCells("cl.MsgTransferPositions", true, func(w *World, p Pos, s string) sdk.Msg {
-			to := s // a thief transfers to himself
-			if s == p.Owner || s == "" || strings.HasPrefix(s, "mod:") || s == "pool" {
-				to = otherThan(w, p.Owner)
-			}
+			// sender == new owner is refused by ValidateBasic, which would mask the owner test: a thief
+			// transfers to an accomplice
+			to := otherThan(w, p.Owner, s)
 			return &cltypes.MsgTransferPositions{PositionIds: []uint64{p.ID}, Sender: w.Addr(s), NewOwner: w.Addr(to)}
 		}), batchCells("cl.MsgTransferPositions", func(w *World, ids []uint64, s string) sdk.Msg {
 			return &cltypes.MsgTransferPositions{PositionIds: ids, Sender: w.Addr(s), NewOwner: w.Addr(otherThan(w, s))}
